@@ -119,6 +119,13 @@ def gen_client_ops(rng, thorough=False):
     scs.append({"id": len(scs), "kind": "client_ops", "queue": 16, "steps": steps, "tag": "c18-list-reuse"})
     for n in ((1, 2, 7, 16) if thorough else (1, 3)):
         scs.append({"id": len(scs), "kind": "client_queue", "queue": n, "steps": [], "tag": f"c18-queue-depth-{n}"})
+    # decode levels: every level of each component (thorough: all 36 combinations), given at creation and set at run time
+    if thorough:
+        lv = [[a, f, p] for a in range(4) for f in range(3) for p in range(3)]
+    else:
+        lv = [[0, 0, 0], [1, 0, 0], [2, 0, 0], [3, 0, 0], [0, 1, 0], [0, 2, 0], [0, 0, 1], [0, 0, 2], [3, 2, 2], [rng.randrange(4), rng.randrange(3), rng.randrange(3)]]
+    steps = [{"op": "create", "values": x} for x in lv] + [{"op": "set", "values": x} for x in (lv if thorough else lv[1:9:2] + [lv[8]])]
+    scs.append({"id": len(scs), "kind": "decode_levels", "queue": 1, "steps": steps, "tag": "c18-decode-levels-same-named"})
     # the retry strategy handed to rodbus_client_channel_create_tcp: min, 2 min, ... capped at max (start = min, count = max,
     # timeout = number of attempts to observe)
     for (mn, mx, att) in (((150, 500, 5), (300, 300, 3), (100, 1000, 5)) if thorough else ((150, 500, 5),)):
